@@ -64,3 +64,50 @@ func VP_C03_decode() {
 		}
 	}
 }
+
+
+//vp:property C03 C01
+//vp:set maxalloc 64 64
+//vp:bounds a CHANNEL_CREATE request in the phase that allows it, as MS-TSGU lays it out: one resource name (1 symbolic UTF-16 unit) and 0..2 ALTERNATE resource names (1 symbolic unit each), port symbolic; the host policy answers arbitrarily each time it is asked; every connection attempt succeeds or fails arbitrarily
+//vp:reach dialed refused
+func VP_C03_channel_alternates() {
+	vpResetC01()
+	gw := &Gateway{CheckHost: vpCallback("host")}
+	nalt := vpIntRange("alternate-names", 0, 2)
+	name := func(tag string) []byte {
+		c := vpU8(tag)
+		vpAssume(vpAnd(c >= 'a', c <= 'z'))
+		return []byte{2, 0, c, 0}
+	}
+	body := []byte{1, byte(nalt), vpU8("port-lo"), vpU8("port-hi"), 3, 0}
+	body = append(body, name("name")...)
+	for i := 0; i < nalt; i++ {
+		body = append(body, name("alt"+string(rune('0'+i)))...)
+	}
+	tr := &vpTransport{in: [][]byte{vpPacket(PKT_TYPE_CHANNEL_CREATE, body)}}
+	tun := &Tunnel{transportIn: tr, transportOut: tr, User: vpUser()}
+	p := NewProcessor(gw, tun)
+	p.state = SERVER_STATE_TUNNEL_AUTHORIZE
+	p.Process(vpCtx())
+	vpDropTasks()
+	vpObserve("ndial", uint64(len(vpDialLog)))
+	// every address a connection was attempted to was put to the policy, and the policy allowed it
+	for _, d := range vpDialLog {
+		allowed := false
+		for i, h := range vpHostArgs {
+			if h == d && vpHostVerdictAt[i] < len(vpCbRes) && vpCbRes[vpHostVerdictAt[i]] {
+				allowed = true
+			}
+		}
+		vpAssert(allowed, "every-address-dialed-was-allowed-by-the-host-policy")
+	}
+	if len(vpDialLog) > 0 {
+		vpReach("dialed")
+	} else {
+		vpReach("refused")
+	}
+	ok := len(tr.out) >= 1 && len(tr.out[0]) >= 12 && vpLE32(tr.out[0], 8) == 0
+	if ok {
+		vpAssert(len(vpDialConns) >= 1 && tun.rwc == vpDialConns[len(vpDialConns)-1], "success-means-a-connection-to-an-allowed-address")
+	}
+}
